@@ -55,6 +55,14 @@ add("C05", "other",
     "valid sessions; any recovered panic or undocumented error is a violation; the VM model (each Go panic site = Abort) must agree.",
     COMMON_NOTE, DIFF)
 
+add("C08", "other",
+    "Partial. Proved in Coq (PropC08.v): the VM model's error path leaves the main machine clean (sp, frames, closures, child "
+    "contexts, ip) and keeps the globals. Not proved: that code compiled at shifted offsets behaves the same "
+    "(C08_twin_sessions_statement). Decided each run by twin sessions on the real code: histories with parse errors and "
+    "runtime errors of every class at depth 0-30, in loops, in suspended generators 1-3 levels deep, several in a row, "
+    "against the same history without the failures; every later statement must agree. The failing histories are also "
+    "compared with Sem and the VM model.", COMMON_NOTE, DIFF)
+
 PENDING_REASON = "check under construction in this round (the technique applies; see DESIGN.md section 6); not yet claimed"
 
 
